@@ -4,7 +4,9 @@ import (
 	"encoding/json"
 	"fmt"
 	"os"
+	"path/filepath"
 
+	"bklverif/fsx"
 	"bklverif/gen"
 	"bklverif/real"
 	"bklverif/tv"
@@ -85,7 +87,7 @@ func Replay(id, path string) int {
 		json.Unmarshal(rf.Case.Vector, &v)
 		return report(replayWrap(r, &v), nil)
 	case "trace":
-		sess, ok := redrive(rf.Case.Events)
+		sess, ok := redrive(r, rf.Case.Events)
 		if !ok {
 			fmt.Println("this trace cannot be re-driven automatically (process-level events); the recorded events are in the file")
 			return 2
@@ -102,7 +104,7 @@ func Replay(id, path string) int {
 
 // redrive performs the calls of a recorded library trace again on the real
 // code and records fresh events.
-func redrive(events []map[string]any) (Sess, bool) {
+func redrive(r *Run, events []map[string]any) (Sess, bool) {
 	var lines [][]byte
 	var s *real.Sess
 	for _, e := range events {
@@ -169,10 +171,73 @@ func redrive(events []map[string]any) (Sess, bool) {
 				}
 			}
 			lines = append(lines, evalEvent(docs, env, expect, laws, ""))
+		case "Wrap":
+			fs := entriesOf(e["fs"])
+			args := stringsOf(e["args"])
+			kube := e["via"] == "kubectl-bkl"
+			obs, err := runWrapper(r, fs, args, kube)
+			if err != nil {
+				return Sess{}, false
+			}
+			lines = append(lines, wrapEvent(fs, args, obs, fmt.Sprint(e["via"])))
+		case "Run":
+			l := &layout{Fs: entriesOf(e["fs"]), Skip: e["skip"] == true, Root: fmt.Sprint(e["root"])}
+			for _, in := range stringsOf(e["inputs"]) {
+				rel, err := filepath.Rel("/w", in)
+				if err != nil {
+					return Sess{}, false
+				}
+				l.Inputs = append(l.Inputs, rel)
+			}
+			if e["via"] == "library" {
+				ev, ok := libraryRun(r, l, stringsOf(e["roots"]))
+				if !ok {
+					return Sess{}, false
+				}
+				lines = append(lines, ev)
+			} else {
+				_, traced := e["reads"]
+				sess, ok := runSession(r, l, traced || e["ok"] != true)
+				if !ok {
+					return Sess{}, false
+				}
+				lines = append(lines, sess.Lines...)
+			}
+		case "RBegin", "RStep", "REnd":
+			// regenerated by the Run event above
 		default:
 			return Sess{}, false
 		}
 	}
 	_ = gen.Env
 	return Sess{Lines: lines}, len(lines) > 0
+}
+
+func stringsOf(v any) []string {
+	out := []string{}
+	if l, ok := v.([]any); ok {
+		for _, x := range l {
+			out = append(out, fmt.Sprint(x))
+		}
+	}
+	return out
+}
+
+func entriesOf(v any) map[string]fsx.Entry {
+	out := map[string]fsx.Entry{}
+	m, _ := v.(map[string]any)
+	for p, x := range m {
+		em, _ := x.(map[string]any)
+		e := fsx.Entry{Kind: fmt.Sprint(em["kind"])}
+		if t, ok := em["target"].(string); ok {
+			e.Target = t
+		}
+		if ds, ok := em["docs"].([]any); ok {
+			for _, d := range ds {
+				e.Docs = append(e.Docs, d.([]any))
+			}
+		}
+		out[p] = e
+	}
+	return out
 }
